@@ -246,6 +246,12 @@ pub fn build(
                     return Ok(None);
                 };
 
+                if type_.size_overflows(&semantic.type_registry) {
+                    anyhow::bail!(
+                        "the size of field `{ident}` of type `{resolvee_path}` is too large to be represented"
+                    );
+                }
+
                 let ident = (ident.0 != "_").then(|| ident.0.clone());
                 pending_regions.push((
                     address,
@@ -525,16 +531,26 @@ fn resolve_regions(
         last_address: usize,
     }
     impl Regions {
-        fn push(&mut self, type_registry: &TypeRegistry, region: Region) -> Option<()> {
-            let size = region.size(type_registry)?;
+        /// Returns `Ok(None)` if the size of the region is not known yet
+        fn push(
+            &mut self,
+            type_registry: &TypeRegistry,
+            region: Region,
+        ) -> anyhow::Result<Option<()>> {
+            let Some(size) = region.size(type_registry) else {
+                return Ok(None);
+            };
             if size == 0 && region.type_ref.is_array() {
                 // zero-sized regions that are arrays are ignored
-                return Some(());
+                return Ok(Some(()));
             }
 
             self.regions.push(region);
-            self.last_address += size;
-            Some(())
+            self.last_address = self
+                .last_address
+                .checked_add(size)
+                .context("the size of the type is too large to be represented")?;
+            Ok(Some(()))
         }
     }
     let mut resolved = Regions::default();
@@ -550,7 +566,7 @@ fn resolve_regions(
     )?;
     if let Some(vftable_region) = vftable_region {
         if resolved
-            .push(&semantic.type_registry, vftable_region)
+            .push(&semantic.type_registry, vftable_region)?
             .is_none()
         {
             return Ok(None);
@@ -574,14 +590,14 @@ fn resolve_regions(
             };
             let padding_region = Region::unnamed_field(semantic.type_registry.padding_type(size));
             if resolved
-                .push(&semantic.type_registry, padding_region)
+                .push(&semantic.type_registry, padding_region)?
                 .is_none()
             {
                 return Ok(None);
             }
         }
 
-        if resolved.push(&semantic.type_registry, region).is_none() {
+        if resolved.push(&semantic.type_registry, region)?.is_none() {
             return Ok(None);
         }
     }
@@ -595,7 +611,7 @@ fn resolve_regions(
                     .padding_type(target_size - resolved.last_address),
             );
             if resolved
-                .push(&semantic.type_registry, padding_region)
+                .push(&semantic.type_registry, padding_region)?
                 .is_none()
             {
                 return Ok(None);
